@@ -22,8 +22,8 @@ namespace Pfb.AutoImp
 abbrev Name := Str
 /-- a dotted identifier as its parts (`DottedIdentifier.parts`) -/
 abbrev Dotted := List Name
-/-- object identity -/
-abbrev Obj := Nat
+/-- object identity (a notation, not a definition, so that `omega` sees plain `Nat`s) -/
+notation "Obj" => Nat
 
 /-- `pyflyby.Import`: `fullname`, `import_as`.  `import a.b` = ⟨a.b, a.b⟩,
     `from a import b as c` = ⟨a.b, c⟩, `import a as c` = ⟨a, c⟩. -/
